@@ -2758,12 +2758,12 @@ def tar_sites(s, attrs, depth=2):
     the methods of its module the handler calls: [(PathEval, call)]"""
     out, done = [], set()
 
-    def scan(f, binding, d):
+    def scan(f, binding, d, handed=()):
         if id(f.node) in done:
             return
         done.add(id(f.node))
         ev = PathEval(s.prog, f, s.cls, binding)
-        names = tar_names(s.prog, f)
+        names = tar_names(s.prog, f) | set(handed)
         for c in calls_in(f.node):
             if isinstance(c.func, ast.Attribute) and \
                     isinstance(c.func.value, ast.Name) and \
@@ -2775,7 +2775,15 @@ def tar_sites(s, attrs, depth=2):
                 callee = s.prog.resolve_call(f, c, s.cls)
                 if callee is not None and callee.cls is not None and \
                         callee.module.rel == s.rel:
-                    scan(callee, (ev, c), d - 1)
+                    # parameters which receive a tarfile object
+                    params = [p for p in callee.params if p != 'self']
+                    handed = [params[i] for i, a in enumerate(c.args)
+                              if isinstance(a, ast.Name) and a.id in names
+                              and i < len(params)]
+                    handed += [k.arg for k in c.keywords if k.arg in params
+                               and isinstance(k.value, ast.Name) and
+                               k.value.id in names]
+                    scan(callee, (ev, c), d - 1, handed)
     scan(s.handler, None, depth)
     return out
 
@@ -3161,7 +3169,7 @@ def r11_11(prog, rep, rid='R11.11'):
              'backends which has a file system effect reaches it on every '
              'path that ends without an exception: no early return decided by '
              'what the helper instance remembers (the file system is shared '
-             'with other helper instances and the payloads)', minimum=19)
+             'with other helper instances and the payloads)', minimum=24)
     helper, backends, delegated = staging_backends(prog)
     if len(backends) < 2:
         raise AnalysisError('%s: only %d staging backend(s) found'
@@ -3171,7 +3179,10 @@ def r11_11(prog, rep, rid='R11.11'):
         for op in sorted(delegated):
             m = prog.find_method(b, op)
             if m is None:
-                continue                                   # R11.4
+                rep.ok(rid, b.where, '%s has no %r: no effect to be passed '
+                       'over (R11.4 decides about the operation)'
+                       % (b.name, op))
+                continue
             g = cfg_of(m)
             eff, sib = set(), {}
             for n in g.nodes:
@@ -3185,7 +3196,10 @@ def r11_11(prog, rep, rid='R11.11'):
                                 c.func.attr in delegated:
                             sib.setdefault(c.func.attr, set()).add(n.id)
             if not eff:
-                continue                                   # no-op body: R11.4
+                rep.ok(rid, m, '%s.%s has no effect which could be passed '
+                       'over (R11.4 decides about the operation)'
+                       % (b.name, op), m.loc())
+                continue
             rep.saw(m)
             groups = [('its file system effect', eff)] + [
                 ('the operation `self.%s(..)` it relies on' % k, v)
@@ -3263,7 +3277,12 @@ def run(prog, rep, tier):
         'are not changed through a name bound to their result; an exception '
         'of the staging operation of a directive leaves the per-task handler '
         '(or the task is failed there) on every except path which is '
-        'feasible for a task whose target_state is DONE.')
+        'feasible for a task whose target_state is DONE; the tarball of '
+        'TARBALL directives carries member names relative to one location '
+        '(absolute = relative to `/`) and the agent unpacks it under that '
+        'location; every facade / backend operation of the staging helper '
+        'passes its file system effect on every path which ends without an '
+        'exception (no early return decided by instance state).')
     rep.undecided = ('file contents and remote transfers; that the backend '
         'operations do what their names say (cp/mv/ln semantics, SAGA); '
         'that the exception which leaves the per-task handler fails that '
@@ -3286,6 +3305,11 @@ def run(prog, rep, tier):
         'a handler around a staging operation fails the task by '
         'advance(task, FAILED) or (output stagers) by storing FAILED into '
         'target_state; everything else which ends normally drops the error',
+        'tarfile.add() removes the leading `/` of a member name and '
+        'extractall(path) places every member below `path` (stdlib)',
+        'in a helper backend every call which is not logging, a str / '
+        'os.path / ru.Url computation or book-keeping on a container '
+        'attribute counts as (part of) the effect of the operation',
     ]
     r11_1(prog, rep)
     r11_1b(prog, rep)
